@@ -40,7 +40,11 @@ import os
 
 from .. import c13_lib as L
 from ..core import Acc
-from ..models import MODEL_SPECS
+from ..models import MODEL_SPECS as _CATALOGUE_SPECS
+
+# + a logistic model with a very small noise level (5e-4: nearly noise-free data), explored with a reduced menu
+TINY_NOISE = "logistic_d2_s1_diag_tiny_noise"
+MODEL_SPECS = dict(_CATALOGUE_SPECS, **{TINY_NOISE: dict(_CATALOGUE_SPECS["logistic_d2_s1_diag"], noise_level=5e-4)})
 
 ID = "C13"
 LEVEL = "model_checking"
@@ -69,11 +73,11 @@ ASSUMPTIONS = [
 
 ALGOS = ("scipy_minimize", "mode_posterior", "mean_posterior")
 
-QUICK_SPECS = ("logistic_d2_s1_diag", "joint_d2_s1_diag", "logistic_d2_s0_diag")
+QUICK_SPECS = ("logistic_d2_s1_diag", "joint_d2_s1_diag", "logistic_d2_s0_diag", TINY_NOISE)
 # thorough: depth 4 on the logistic and the joint model, depth 3 (thorough menu) on five more configurations of all kinds
 THOROUGH_SPECS = (
     "logistic_d2_s1_diag", "joint_d2_s1_diag", "linear_d2_s1_diag", "shared_d2_s1_diag",
-    "logistic_d2_s0_diag", "logistic_d2_s1_scalar", "joint_d1_s0_scalar",
+    "logistic_d2_s0_diag", "logistic_d2_s1_scalar", "joint_d1_s0_scalar", TINY_NOISE,
 )
 THOROUGH_DEPTH = {n: (4 if i < 2 else 3) for i, n in enumerate(THOROUGH_SPECS)}
 
@@ -82,12 +86,15 @@ def menu(spec, tier):
     """Operations: ["fit", cohort, form, variant], ["personalize", algo, cohort, form, variant], ... (see c13_lib).
     variant "custom" = settings carrying nested containers (annealing on / sampler parameters / solver options)."""
     forms = L.forms_for(spec)
+    if "noise_level" in spec:
+        # reduced menu: the calls that read the noise level (simulate) or could be disturbed by a change of it
+        return [["simulate", "dataframe"], ["simulate", "random"], ["estimate"], ["personalize", "scipy_minimize", "C", forms[0], "default"], ["reload"]]
     ops = [["fit", "A", forms[0], "default"], ["fit", "D", forms[2 % len(forms)], "custom"], ["estimate"]]
     k = 0
     for algo in ALGOS:
         for cohort, variant in (("A", "default"), ("B", "custom")):
-            if tier == "quick" and (algo, cohort) in (("mean_posterior", "A"), ("mode_posterior", "A")):
-                continue
+            if tier == "quick" and (algo, cohort) == ("mode_posterior", "A"):
+                continue  # (mean_posterior on A is kept: a sampling personalization of a cohort of the fitted cohort's size)
             if tier == "quick" and algo == "mean_posterior":
                 variant = "default"
             ops.append(["personalize", algo, cohort, forms[k % len(forms)], variant])
